@@ -238,22 +238,71 @@ func c02Case3(i int64) (jast.Node, O, string) {
 	return c02Head(0, []jast.Node{&jast.Var{Name: ""}}), O{"x": raw}, "grid3-self"
 }
 
+// ---- grid 4: a variable head with two stacked predicates, followed by a
+// further step, evaluated when the input itself is an array: the head (and its
+// predicates) must be evaluated once, not once per member of the input
+var c02Roots = []A{
+	{1.0, 2.0, 3.0},
+	{A{1.0, 2.0}, A{3.0, 4.0}},
+	{O{"x": A{5.0, 6.0}}, O{"x": A{7.0}}, A{O{"x": 8.0}}},
+}
+
+func c02Grid4() int64 { return int64(len(c02Roots)) * 4 * 9 * 3 }
+
+func c02Case4(i int64) (jast.Node, interface{}, string) {
+	tail := int(i % 3)
+	i /= 3
+	p2 := []float64{0, 1, -1}[i%3]
+	i /= 3
+	p1 := []float64{0, 1, -1}[i%3]
+	i /= 3
+	head := int(i % 4)
+	i /= 4
+	root := c02Roots[i%int64(len(c02Roots))]
+	var h jast.Node
+	switch head {
+	case 0:
+		h = &jast.Var{Name: ""}
+	case 1:
+		h = &jast.Var{Name: "$"}
+	default:
+		h = &jast.Var{Name: "v"}
+	}
+	var e jast.Node = &jast.Pred{X: &jast.Pred{X: h, Filters: []jast.Node{&jast.Num{V: p1}}}, Filters: []jast.Node{&jast.Num{V: p2}}}
+	switch tail {
+	case 1:
+		e = &jast.Path{Steps: []jast.Node{e, &jast.Var{Name: ""}}}
+	case 2:
+		e = &jast.Path{Steps: []jast.Node{e, &jast.Name{V: "x"}}}
+	}
+	if head >= 2 {
+		var val jast.Node = lit(A{A{5.0, 6.0}, A{O{"x": 1.0}, O{"x": 2.0}}})
+		if head == 3 {
+			val = &jast.Var{Name: ""}
+		}
+		e = &jast.Block{Exprs: []jast.Node{&jast.Assign{Name: "v", Val: val}, e}}
+	}
+	return e, root, "grid4-anchored-variable-head"
+}
+
 func init() {
 	fw.Register(&fw.Prop{
 		ID: "C02", Title: "Predicates filter by truth value or select by position, per context item",
 		Rule: "cases: (a) exhaustive grid: array lengths 0..5 x positions -7..7 step 0.5 (29) x 10 predicate forms (literal n, $$.n, [n], [n,n], [n,m] for 6 m) x 5 head shapes (x[p], (x)[p], $v[p], $.x[p], y.x[p] with x nested in a 2-element y); " +
 			"(b) the same grid with a second stacked predicate [0], [-1], [true] on a name head and on a variable head over arrays of arrays (the two stacking rules); " +
 			"(b2) per-item predicate values: arrays of 1..4 objects whose member pos is each of -1,0,1,2,1.5,true,false,[0,2],absent,'s' (all 11110 combinations) under x[pos], (x)[pos], $v[pos], and the raw values under x[$]; " +
+			"(b3) a variable head ($, $$, $v) with two stacked positional predicates, alone or followed by .$ or .x, evaluated on inputs that are themselves arrays (324 cases): the head is evaluated once, not per member; " +
 			"(c) PRNG-generated paths as in C01 with 1..3 stacked predicates on any step or on the parenthesised path: comparisons on members, against root members, and/or, numbers (negative, fractional, out of range, computed, from the document), number arrays (literal and $$.idx), mixed arrays, strings, objects, missing, booleans. " +
 			"Oracle: reference model, exact; empty array identified with 'no value' at whole-result level. non-trivial = every case (each has a predicate); distinct by (program, input)",
 		Assumptions: []string{"JSON null inside documents is excluded", "stacked predicates: merged on field-name steps, nested on other heads (as the property's quantifier prescribes)"},
 		Plan: func(tier string, seed uint64) *fw.Plan {
 			nRand := int64(30000)
 			n1, n2, n3 := c02Grid1(), c02Grid2(), c02Grid3()
+			n4 := c02Grid4()
 			if tier == "thorough" {
 				nRand = 1500000
 			}
-			return &fw.Plan{N: n1 + n2 + n3 + nRand,
+			return &fw.Plan{N: n1 + n2 + n3 + n4 + nRand,
 				Subspaces: []string{fmt.Sprintf("grid of %d (length, position, predicate form, head shape) cases", n1), fmt.Sprintf("stacked grid of %d cases", n2), fmt.Sprintf("per-item predicate value grid of %d cases", n3)},
 				Run: func(i int64, r *fw.Rec) {
 					if i < n1+n2 {
@@ -266,6 +315,12 @@ func init() {
 						runPathCase(r, tree, doc, tag, false, &jast.Style{})
 						return
 					}
+					if i < n1+n2+n3+n4 {
+						tree, doc, tag := c02Case4(i - n1 - n2 - n3)
+						runPathCase(r, tree, doc, tag, false, &jast.Style{})
+						return
+					}
+					i -= n4
 					rr := prng.New(seed, 0xC02, uint64(i))
 					g := &pathGen{r: rr, preds: true, tags: map[string]bool{}}
 					tree := g.program()
